@@ -2561,8 +2561,12 @@ impl<'a> Socket<'a> {
             tcp_trace!("sending zero-window probe");
         } else if self.timer.should_close(cx.now()) {
             // If we have spent enough time in the TIME-WAIT state, close the socket.
+            // As on LAST-ACK -> CLOSED, octets that were received but not read yet stay
+            // in the receive buffer (and `recv` reports `Finished` after them): `reset()`
+            // would silently discard them.
             tcp_trace!("TIME-WAIT timer expired");
-            self.reset();
+            self.set_state(State::Closed);
+            self.tuple = None;
             return Ok(());
         } else {
             return Ok(());
